@@ -16,7 +16,7 @@ PROP = {
     ],
     "streams": [
         {"name": "evalorder", "driver": "drv_lang",
-         "quick": {"n": 600}, "thorough": {"n": 12000, "seeds": 4}},
+         "quick": {"n": 600}, "thorough": {"n": 8000, "seeds": 4}},
     ],
     "harness_files": ["stream_lang.go"],
     "exhaustive": False,
